@@ -252,6 +252,9 @@ def verifyMembers : List MMember → List Nat → List Nat → Except Stage (Lis
     if cs.contains n then .error .ifaces else verifyMembers ms (n :: cs) fs
   | .func f :: ms, cs, fs =>
     if fs.contains f.name then .error .ifaces
+    -- duplicate parameter names of any method of the chain (interface_verifier.rs; the AST pass
+    -- `Functions` sees the compiled file only)
+    else if !(decide ((f.params.map (·.name)).Nodup)) then .error .ifaces
     else
       match checkFunc f with
       | .error e => .error e
